@@ -115,6 +115,34 @@ func cancelIdempotent(c *an.Ctx, r *runnerRoles, rule string) {
 		c.Bad(rule, an.Short(f)+":exclusive-lock", f.Pos(), "Cancel does not take an exclusive lock")
 		return
 	}
+	// the calls a closure is handed to (Once.Do(func(){…})): they stand for its call sites
+	handedTo := func(g *ssa.Function) []ssa.Instruction {
+		var out []ssa.Instruction
+		if g.Parent() == nil {
+			return nil
+		}
+		an.EachInstr(g.Parent(), func(in ssa.Instruction) {
+			ci, ok := in.(ssa.CallInstruction)
+			if !ok {
+				return
+			}
+			for _, a := range ci.Common().Args {
+				for _, src := range an.Sources(a) {
+					if mc, ok := src.(*ssa.MakeClosure); ok && mc.Fn == ssa.Value(g) {
+						out = append(out, in)
+					}
+				}
+			}
+		})
+		return out
+	}
+	sitesOf := func(g *ssa.Function) []ssa.Instruction {
+		var out []ssa.Instruction
+		for _, cs := range p.CallSitesOf(g) {
+			out = append(out, cs.(ssa.Instruction))
+		}
+		return append(out, handedTo(g)...)
+	}
 	// underLock / guarded at an instruction: established in its own function, or at every call site of that function
 	var underLock, guarded func(in ssa.Instruction, depth int) bool
 	underLock = func(in ssa.Instruction, depth int) bool {
@@ -135,12 +163,12 @@ func cancelIdempotent(c *an.Ctx, r *runnerRoles, rule string) {
 		if g == f || depth == 0 {
 			return false
 		}
-		sites := p.CallSitesOf(g)
+		sites := sitesOf(g)
 		if len(sites) == 0 {
 			return false
 		}
 		for _, cs := range sites {
-			if !underLock(cs.(ssa.Instruction), depth-1) {
+			if !underLock(cs, depth-1) {
 				return false
 			}
 		}
@@ -161,12 +189,25 @@ func cancelIdempotent(c *an.Ctx, r *runnerRoles, rule string) {
 		if g == f || depth == 0 {
 			return false
 		}
-		sites := p.CallSitesOf(g)
+		// a function handed to Do of a sync.Once held by the runner runs once in the runner's life
+		if hs := handedTo(g); len(hs) > 0 && len(p.CallSitesOf(g)) == 0 {
+			all := true
+			for _, h := range hs {
+				cc := h.(ssa.CallInstruction).Common()
+				if an.ShortCallee(cc) != "(*sync.Once).Do" || !strings.HasPrefix(an.FieldKey(cc.Args[0]), "TaskRunner.") {
+					all = false
+				}
+			}
+			if all {
+				return true
+			}
+		}
+		sites := sitesOf(g)
 		if len(sites) == 0 {
 			return false
 		}
 		for _, cs := range sites {
-			if !guarded(cs.(ssa.Instruction), depth-1) {
+			if !guarded(cs, depth-1) {
 				return false
 			}
 		}
